@@ -100,6 +100,51 @@ def _arg_for(call: ast.Call, callee: FuncInfo, pname: str) -> Optional[ast.AST]:
     return None
 
 
+def _integrate_semantic(model: Model, it: FuncInfo, W: RuleResult) -> Optional[bool]:
+    """_integrate evaluated on symbolic samples and weights (domains/chain.py): whatever the spelling (accumulating loop, comprehension +
+    sum, stack + sum(0)) the result must be  sum_i ffcn(x_i, *fparams) * w_i  with sample i paired with weight i.  None: not interpretable."""
+    from ..domains.chain import SumInterp, Term, Mismatch, flat_sum
+    from ..domains.dictsem import Unsupported, Raised, _Return
+    from ..domains.kinds import AObj
+    ps = it.params()
+    if len(ps) < 4:
+        return None
+    decided = False
+    for n in (3, 1):
+        xs = [Term(("x", i)) for i in range(n)]
+        ws = [Term(("w", i)) for i in range(n)]
+        fp = [Term(("param", 0)), "a non-tensor parameter"]
+        f = AObj("ffcn")
+        sh = dict(logpfcn=f, custom_step=None, pparams=fp, noise=0, runs=0, steps=0, scenario=[], proposals={}, x0=None, used_random={}, asked=set())
+
+        class It(SumInterp):
+            shared = sh
+        run = It({ps[0]: f, ps[1]: list(xs), ps[2]: list(ws), ps[3]: fp})
+        try:
+            try:
+                run.run(list(it.node.body))
+                res = None
+            except _Return as r:
+                res = r.v
+        except (Unsupported, TypeError, AttributeError, KeyError, IndexError, ValueError):
+            if decided:
+                raise AnalysisError("C16-W: _integrate is interpretable for some sizes only")
+            return None
+        except (Mismatch, Raised) as e:
+            W.bad(it, it.node, "_integrate: %s" % e)
+            return False
+        decided = True
+        want = tuple(sorted([Term(("mul",) + tuple(sorted((Term(("lp", xs[i])), ws[i]), key=repr))) for i in range(n)], key=repr))
+        got = flat_sum(res)
+        if got == want:
+            W.ok(it.fq, "_integrate with %d samples returns sum_i ffcn(x_i, *fparams) * w_i (sample i paired with weight i)" % n)
+        else:
+            W.bad(it, it.node, "_integrate must accumulate f(x_i) * w_i over the paired samples and weights: for %d symbolic samples it returns %s, expected the sum of %s"
+                  % (n, res, list(want)))
+            return False
+    return True
+
+
 _MH_SCENARIOS = [
     (2, 3, ["up", "reject", "accept", "reject", "up"]),
     (2, 3, ["reject"] * 5),
@@ -536,6 +581,9 @@ def _weights(model: Model, W: RuleResult):
         W.bad(d, rets[0] if rets else d.node, "dummy1d must return weights normalised by their sum (returned: %s)" % tt.show(w)[:200])
     # the integral
     it = model.func(MCQ, "_integrate")
+    sem = _integrate_semantic(model, it, W)
+    if sem is not None:
+        return
     loops = [n for n in own_nodes(it.node) if isinstance(n, ast.For)]
     ok = False
     if len(loops) == 1:
